@@ -4094,6 +4094,65 @@ def _remainder_only_examined(repo: Repo, f: FuncInfo, n: ast.AST) -> bool:
     return dot_test
 
 
+def _element_selected_by_helper(repo: Repo, f: FuncInfo, use: ast.AST, hay_e: ast.Name, other: str) -> bool:
+    """`hay` is the variable of a loop / comprehension over `helper(.., other, ..)` and every value the helper returns is a
+    comprehension (or filter) over candidates whose conditions establish `element == param or element.startswith(param + ".")`
+    for the parameter that receives `other`."""
+    from core.guards import f_and, f_or, implies, to_formula
+
+    from .common import copy_prop
+
+    lb = _loop_binding(f, hay_e.id, use)
+    if lb is None or not isinstance(lb[0], ast.Name):
+        return False
+    it = lb[1]
+    for _ in range(3):
+        if isinstance(it, ast.Name):
+            it = local_defs(repo, f).get(it.id)
+        elif isinstance(it, ast.Call) and isinstance(it.func, ast.Name) and _call_name(it) in ("sorted", "list", "tuple", "set", "reversed", "iter", "frozenset") and it.args:
+            it = it.args[0]
+        else:
+            break
+    if not isinstance(it, ast.Call):
+        return False
+    cs = origins(repo)._callees(f, it)
+    if len(cs) != 1 or isinstance(cs[0].node, ast.Lambda):
+        return False
+    g = cs[0]
+    pos_ = _positional(g)
+    op = next((pos_[i] for i, a in enumerate(it.args) if i < len(pos_) and norm(a) == other), None) or next((k.arg for k in it.keywords if norm(k.value) == other), None)
+    if op is None and isinstance(it.func, ast.Attribute) and pos_ and pos_[0] in ("self", "cls"):
+        shifted = pos_[1:]
+        op = next((shifted[i] for i, a in enumerate(it.args) if i < len(shifted) and norm(a) == other), None)
+    if op is None or any(isinstance(x, (ast.Yield, ast.YieldFrom)) for x in own_nodes(g.node)):
+        return False
+    if origins(repo)._bindings(g, op):
+        return False  # the parameter is re-bound inside the helper
+    rets = Origins._returns(g)
+    if not rets:
+        return False
+    for r in rets:
+        for _ in range(3):
+            if isinstance(r, ast.Name):
+                r = local_defs(repo, g).get(r.id)
+            elif isinstance(r, ast.Call) and isinstance(r.func, ast.Name) and _call_name(r) in ("sorted", "list", "tuple", "set", "frozenset") and r.args:
+                r = r.args[0]
+            else:
+                break
+        if isinstance(r, (ast.List, ast.Tuple, ast.Set)) and not r.elts:
+            continue
+        if not (isinstance(r, (ast.ListComp, ast.SetComp, ast.GeneratorExp)) and len(r.generators) == 1 and isinstance(r.elt, ast.Name) and isinstance(r.generators[0].target, ast.Name) and r.generators[0].target.id == r.elt.id and r.generators[0].ifs):
+            return False
+        facts = f_and([to_formula(c, copy_prop(g)) for c in r.generators[0].ifs])
+        safe_a, _raw = _relation_atoms(repo, g, facts, r.elt.id, {op})
+        try:
+            if not (safe_a and implies(facts, f_or(safe_a))):
+                return False
+        except AnalysisError:
+            return False
+    return True
+
+
 def _slice_by_len(repo: Repo, f: FuncInfo, n: ast.AST, other_e: ast.expr, boundary_funcs: set[str], depth: int = 0, hay_e: ast.expr | None = None, relation_only: bool = False) -> tuple[str, str]:
     """Verdict for removing the first len(other) characters of the name `hay` at node `n` (`hay[len(other):]`, `hay.removeprefix(other)`).
 
@@ -4187,6 +4246,16 @@ def _slice_by_len(repo: Repo, f: FuncInfo, n: ast.AST, other_e: ast.expr, bounda
                     verdicts.append("unknown")
             if verdicts and all(v == "safe" for v in verdicts):
                 return "safe", "every caller establishes, by a relation predicate of the same object, that the argument is the name or one of its ancestors"
+    # the name is an element of what a helper selected for the other string: `for m in self._submodules_including(p): m[len(p):]`
+    # with `return [m for m in names if m == p or m.startswith(p + ".")]`
+    if depth < 2 and isinstance(hay_e, ast.Name) and not isinstance(f.node, ast.Lambda):
+        try:
+            if _element_selected_by_helper(repo, f, n, hay_e, other):
+                return "safe", "the name is an element of a collection that a helper filtered by a boundary-safe test against the other string"
+        except RecursionError:
+            raise
+        except Exception:  # noqa: BLE001
+            pass
     # no string test at all, and the name was reached along graph edges: `for m in walk_of_successors(p): label(m[len(p):])`
     if depth == 0:
         try:
